@@ -12,7 +12,7 @@ src = open("/verif/tools/gen_matrix_md.py").read()
 ideas = re.findall(r"'(%s-[a-z])': '((?:[^'\\]|\\.)*)'" % pid, src)
 print(base)
 print("IMPORTANT: do NOT use 'git stash' (shared between worktrees); use 'git diff > file' + 'git checkout -- .' + 'git apply file'.\n")
-print("The ideas listed at the end have ALREADY been produced by others for this property (five earlier rounds) — do NOT repeat them or close variants; "
+print("The ideas listed at the end have ALREADY been produced by others for this property (six earlier rounds) — do NOT repeat them or close variants; "
       "find a DIFFERENT mechanism in a different corner of the code. What is wanted now are changes a careful reviewer could wave through, which manifest only under a NARROW trigger. Hunting grounds:\n"
       "  * thresholds: something that only differs from N on (10+/13+/16+/17+/32+ branches, steps, actions per step, captures per step, wrapper nesting depth 3+, option count 3+, thread-name length, nested depth 3);\n"
       "  * two cooperating sites that each look fine alone (a helper changed consistently with one of its two callers only; a flag computed in the parser and consumed in the generator; parser builder vs. generator disagreeing on an index base);\n"
@@ -22,6 +22,10 @@ print("The ideas listed at the end have ALREADY been produced by others for this
       "  * concurrency variants: something that only shows under one particular completion order / thread schedule / poll order / spurious wake-up / a task finishing before its sibling is even created;\n"
       "  * user code that looks unusual to the macro: identifiers that resemble generated names, operands that are themselves macro calls / closures returning closures / `async` blocks / references / labelled loops / `return`- or `?`-containing closures / struct literals / ranges (`0..n`), type operands with generics / paths / lifetimes, shadowing of std names (a local called `Ok`, `Some`, `std`), `#[attr]` on closures; "
       "keep in mind whitespace is NOT visible to a proc-macro.\n"
+      "  * answers of the ENVIRONMENT the generated code may ask for (runtime flavour / handle, thread names and ids, available parallelism, panic payload types, whether a JoinHandle is finished) and names in the CALLER'S scope (items called like std / core / Box / Ok, a local macro_rules! named like a std macro, `#![no_implicit_prelude]`-like situations);\n"
+      "  * value TYPES nobody tests: references and slices, zero-sized types, unit `()`, tuples, nested Option<Result<..>>, Box<dyn Trait>, impl Trait returns, types with lifetimes, must_use values, types whose Drop has side effects, Result<(), E>, iterators of iterators, bool;\n"
+      "  * evaluation ORDER and COUNT of things that are usually pure (the operand of `<|`, the initial expressions of later branches, handler operands, type operands with side-effect-free defaults), temporaries that are dropped earlier/later than in the documented method chain (drop order of values held across a `~` step boundary);\n"
+      "  * diagnostics: a structurally invalid input that is now accepted or now panics only in ONE of the 8 macro configurations, or only when it appears in the 2nd+ branch / after a handler / after options.\n"
       "Stay away from the blunt variant of each idea: if ordinary two-branch one-step usage would show it, it is not what is wanted.\n")
 print("Already produced (do not repeat):")
 for k, d in ideas:
